@@ -1,2 +1,3 @@
 //! Seeded generators shared by checks.
 pub mod topology;
+pub mod cqlgen;
